@@ -38,6 +38,22 @@ def _account_stream(stats, plan, tr):
             stats.probe('compiled_decoder_streams')
         if tr.get('exc'):
             stats.probe('runs_ending_in_exception')
+    elif fam == 'c12-enum':
+        subs = streamsim.enum_subplans(plan)
+        n = sum(1 for x in subs if x is not None)
+        stats.steps += n
+        stats.probe('enumerated_faults', n)
+        stats.probe('enumerated_faults_rejected_by_guards', len(subs) - n)
+        stats.probe('messages_with_every_fault_enumerated')
+        for sub in subs:
+            if sub is None:
+                continue
+            for it in sub['items']:
+                if it.get('fault'):
+                    k = streamsim._fk(it['fault'])
+                    stats.faults_fired[k] = stats.faults_fired.get(k, 0) + 1
+            if any(x['must_skip'] for x in streamsim.finalize(sub)['segs']):
+                stats.probe('must_skip_demands')
     elif fam == 'c12-trunc':
         stats.steps += tr['n']
         stats.faults_fired['trunc'] = stats.faults_fired.get('trunc', 0) + tr['n']
@@ -98,11 +114,14 @@ def c11(tier):
 def c12(tier):
     return runner.check_main(
         'C12', tier, streamsim, 'streamsim',
-        [('c12', 1500, 40000), ('c12-trunc', 60, 1200), ('c12-tail', 200, 4000)],
+        [('c12', 1500, 40000), ('c12-enum', 48, 1500), ('c12-trunc', 60, 1200), ('c12-tail', 200, 4000)],
         'fault_enumeration',
         'seeded streams of 2..8 messages, each message damaged with seeded probability by one of {stopsig, '
         'undef_el, undef_seq, len-, len+} (every subset of damaged messages occurs), full/info-only, with and '
-        'without continue-on-error, API and CLI; plus per sampled message every truncation point (exhaustive '
+        'without continue-on-error, API and CLI; per sampled message A next to an intact message B EVERY fault of '
+        'the named kinds at EVERY position (each descriptor position x {undefined element, undefined sequence}, '
+        'each section x each length delta, stop-signature variants), one pristine process per fault (family '
+        'c12-enum); plus per sampled message every truncation point (exhaustive '
         '<=1000 B quick / <=6000 B thorough, section edges + sampled cuts above) and arbitrary tails; distinct = '
         'abstract run shape (per message: class, fault kind+section+sign, separator class; mode; continue flag; '
         'front end); non-trivial = at least one fault fired and at least one undamaged message present',
